@@ -17,6 +17,8 @@ CLAIMED = {
              ref='DESIGN.md section 4 C13'),
  'C03': dict(text='distance_bin, reachdist, breadthdist, efficiency_bin and charpath on symbolic adjacency bits (all directed graphs on <= 4 nodes in one exploration) against Boolean k-step reachability; distance_wei, distance_wei_floyd (None/inv/log), efficiency_wei and rout_efficiency with every cell a symbolic length >= 0 (support and ties symbolic) against the minimum over all enumerated simple paths: distances, infinity iff unreachable, reach flags, zero diagonal, hop counts of some shortest path, mean and mean inverse distance.',
              ref='DESIGN.md section 4 C03'),
+ 'C04': dict(text='For 50 (measure, input kind) entries and the generators of S_n (plus seeded permutations), f(A) and f(A[p][:,p]) are run in one exploration on every labelled graph of the bound with symbolic weights / cube-root weights / lengths, and f(A_p) = permute(f(A)) is proved element-wise (node vectors, pair matrices, scalars and distributions, partitions).  LAPACK-based measures (pagerank, eigenvector, subgraph centrality) are not encoded and not claimed.',
+             ref='DESIGN.md section 4 C04'),
  'C08': dict(text='betweenness_wei / edge_betweenness_wei with every cell a symbolic length >= 0: each explored path is one support + tie structure (the routines fork on Duw < D[w] / Duw == D[w]) valid for all length assignments realising it; node and edge values are compared exactly (rationals) with a brute-force count over enumerated simple paths whose "is shortest" questions the solver decides under the path condition; binary routines per labelled graph incl. the sum identities; edge routines\' node vector equals the node routines\'.',
              ref='DESIGN.md section 4 C08'),
  'C09': dict(text='All nine clustering / transitivity routines on every labelled graph of the bound (bits forked), with the cube roots c_ij in (0,1] of the weights symbolic (the routine receives c^3) and, for the signed variant, the sign pattern forked: C[u] x denominator = triple-sum numerator (polynomial identities settled by normal form or z3), exactly 0 for nodes with fewer than two neighbours or no triangle, [0,1] for the binary routines, transitivity = triangle/triple ratio.',
